@@ -73,6 +73,17 @@ var flineMenuQuick = []string{
 
 var bodyMenu = []string{"", "ab", "abcdEXTRA", "\nb", "\r\n"} // incl. bodies that begin with a line end
 
+// short messages for the single-substitution space (requests and replies, every line-end style, known and generic
+// headers, a body)
+var substMsgs = []string{
+	"INVITE sip:a SIP/2.0\r\nf: \"A\" <sip:a@b>;tag=x\r\nl: 2\r\n\r\nab",
+	"SIP/2.0 404 Not Found\r\nm: <sip:a>;q=0.7, sip:c;expires=5\r\nCSeq: 1 X\r\n\r\n",
+	"SIP/2.0 180 Ringing\nv: SIP/2.0/UDP h;branch=z9hG4bK7\nContent-Length : 1\n\nx",
+	"OPTIONS sip:o SIP/2.0\rTo: c <sip:c@d> ; tag=z\rExpires: 60\rX: a\r b\r\r\n",
+	"REGISTER sip:r SIP/2.0\r\nP-Asserted-Identity: <sip:p@q>, <tel:+1>\r\ni: x@1.2.3.4\r\nContact: *\r\n\r\n",
+	"BYE sip:b SIP/2.0\r\nCall-ID:\r\n a\r\nSubject: \r\nFrom: sip:a@b;tag=1;\r\n\r\n",
+}
+
 // fixed long messages (single-path tries); the repository's test messages are among them.
 var longMsgs = []string{
 	"INVITE sip:x@y.com SIP/2.0\r\nFrom: <a@foo.bar>;tag=1234\r\nTo:<x@y.com>\r\nCall-ID: a84b4c76e66710\r\nCSeq: 314159 INVITE\r\nVia: SIP/2.0/UDP 1.2.3.4;branch=z9hG4bKnashds8\r\nMax-Forwards: 70\r\nDate: Thu, 21 Feb 2002 13:02:03 GMT\r\nContent-Length: 12\r\n\r\nv=0\r\no=UserA\r\n",
@@ -136,6 +147,13 @@ func msgSpaces(r *Run) []space {
 	full := msgCfgs(r, true)
 	red := msgCfgs(r, false)
 	ltok := space{name: "msg/long-tokens", gen: menuTrie{[][][]byte{{[]byte(longTokenMsg)}}}, cfgs: []Cfg{{HdrCap: -1, ValCap: -1}, {HdrCap: 1, ValCap: 0, Flags: 1, Offs: 3, Junk: "a"}}, finalFlags: noMore, beyondErr: 1, beyondOk: 1, split: 1}
+	// deviation-bounded exploration: every single-byte substitution (all 256 values) at every position of a few
+	// short well-formed messages, a trie node at every byte (every chunk schedule of every variant)
+	var subst []TrieGen
+	for _, m := range substMsgs[:r.pick(4, len(substMsgs))] {
+		subst = append(subst, substTrie{[]byte(m), all256(), 1})
+	}
+	sub1 := space{name: "msg/subst1x256", gen: unionTrie{subst}, cfgs: []Cfg{{HdrCap: -1, ValCap: -1}, {HdrCap: 2, ValCap: 1, Flags: uint(sipsp.SIPMsgSkipBodyF)}}, finalFlags: noMore, beyondErr: 1, beyondOk: 1, split: 1}
 	if r.quick() {
 		// quick: offsets 0 only for the long messages, both offsets on the shallow trie
 		var f0 []Cfg
@@ -145,7 +163,7 @@ func msgSpaces(r *Run) []space {
 			}
 		}
 		sp := []space{
-			ltok,
+			ltok, sub1,
 			{name: "msg/long", gen: unionTrie{longs}, cfgs: f0, finalFlags: noMore, beyondErr: 1, beyondOk: 1, split: 1},
 			{name: "msg/trie<=1hdr", gen: msgTrie{strs(fl), strs(hm), 1, strs(blankMenu), strs(bodyMenu)}, cfgs: full, finalFlags: noMore, beyondErr: 1, beyondOk: 1, split: 2},
 			{name: "msg/trie<=2hdr", gen: msgTrie{strs(fl[:2]), strs(hdrLineMenuQuick), 2, strs(blankMenu[:2]), strs(bodyMenu)}, cfgs: red, finalFlags: noMore, beyondErr: 1, beyondOk: 1, split: 2},
@@ -153,7 +171,7 @@ func msgSpaces(r *Run) []space {
 		return sp
 	}
 	return []space{
-		ltok,
+		ltok, sub1,
 		{name: "msg/long", gen: unionTrie{longs}, cfgs: full, finalFlags: noMore, beyondErr: 1, beyondOk: 1, split: 1},
 		{name: "msg/trie<=1hdr", gen: msgTrie{strs(fl), strs(hm), 1, strs(blankMenu), strs(bodyMenu)}, cfgs: full, finalFlags: noMore, beyondErr: 1, beyondOk: 1, split: 2},
 		{name: "msg/trie<=2hdr", gen: msgTrie{strs(fl[:5]), strs(hm), 2, strs(blankMenu), strs(bodyMenu)}, cfgs: red, finalFlags: noMore, beyondErr: 1, beyondOk: 1, split: 2},
